@@ -692,7 +692,16 @@ func (e *Evidence) Set(name string, v any) {
 	e.mu.Unlock()
 }
 
-func (e *Evidence) Assume(s string) { e.Assumptions = append(e.Assumptions, s) }
+func (e *Evidence) Assume(s string) {
+	e.mu.Lock()
+	defer e.mu.Unlock()
+	for _, a := range e.Assumptions {
+		if a == s {
+			return
+		}
+	}
+	e.Assumptions = append(e.Assumptions, s)
+}
 
 func (e *Evidence) Write() error {
 	e.mu.Lock()
